@@ -41,6 +41,11 @@ def programs():
                                          "overloads": [["x", {"expr": O("B")}], ["y", {"expr": {"k": "tmpl", "text": "t{C}", "params": []}}]]},
                                      d2={"args": [["a", O("A", dk="const", dv=0)]], "dispatch": O("D", dk="const", dv="x"),
                                          "overloads": [["x", {"expr": O("S.X", dk="const", dv="sx")}], ["y", {"expr": O("E", dk="const", dv=1)}]]}))
+    # a coalesce member that is REJECTED although every key it reads is present (value outside its domain): keys() and
+    # evaluate() must agree on the member that is used
+    add("coalesce-domain-rejected-member", prog({"k": "tuple", "items": [
+        {"k": "cached", "spec": {"k": "coalesce", "members": [O("D", dom=["container", ["x", "y"]]), O("B", dk="const", dv="fb")]}}, DS(1)]},
+        d1={"args": [["v", {"k": "coalesce", "members": [O("E", dom=["container", ["x"]]), O("C", dk="const", dv="fc")]}]]}))
     # a skipped coalesce member that is a Map whose iterables cannot be evaluated: what the caller holds under a MAPPED
     # key (and what that refers to) is no dependency - keys() must be stable under restriction to keys()
     add("map-static-explain-outer-values", prog({"k": "cached", "spec": {"k": "coalesce", "members": [
@@ -200,6 +205,9 @@ def dictionaries():
         {"A": None, "B": 2, "E": None, "C": None, "S": {"X": 2, "Y": 2}},
         {"A": None, "E": None, "C": None},
         {"A": ["p{T.X}q"], "B": ["{A}", "a"], "C": False, "T": {"X": ["{C}", 2]}},
+        {"D": "z", "B": 1, "E": "q", "C": 1},
+        {"D": "z", "B": 2, "E": "q", "C": 2},
+        {"D": "z", "E": "q"},
         {"D": "x"},
         {"D": ["x"], "E": {"K": "x"}},
         {"D": ["x"], "E": ["x"], "A": 1, "B": 2},
